@@ -123,8 +123,10 @@ def tol_value(measure, param, x, value=None):
     Returns a float64 tensor (M,).  Derivations (eps = machine epsilon of x.dtype,
     A = max|x| of the column, r = max - min of the column, N = length):
 
-    es     -mean of k <= N values: k-1 additions and a division, each relative eps:
-           <= (N + 1) eps A; doubled.
+    es     -mean of the k <= N worst values: k-1 additions and a division, each relative eps:
+           <= (k + 1) eps A_tail with A_tail = max|x_i| over the tail (the larger accepted tail at a
+           borderline level); bound used: 2 (N + 1) eps A_tail.
+    var    linear interpolation between two order statistics: (N + 1) eps A; doubled.
     erm    z = -a x (eps a A); logsumexp = max + log(sum exp(z - max)): the exponent
            carries eps |z| <= eps a 2A, the sum of <= N terms in [0, N] relative (N+1) eps,
            log of a number in [1, N] turns relative into absolute error; - log N and / a:
@@ -149,7 +151,12 @@ def tol_value(measure, param, x, value=None):
     N = x.size(0)
     xd = x.to(torch.float64)
     A = xd.abs().amax(0)
-    if measure in ("es", "var"):
+    if measure == "es":
+        # only the k = ceil(pN) worst outcomes are summed (selection by comparison is exact), so the
+        # magnitude that matters is the largest |outcome| *inside the tail*, not max|x| of the sample:
+        # a sample mixing 0.03 with 1e7 still has an expected shortfall exact to eps * 0.03 * k
+        return 2 * (N + 1) * eps * tail_magnitude(xd, param)
+    if measure == "var":
         return 2 * (N + 1) * eps * A
     if measure == "erm":
         return eps * (10 * A + 2 * (N + 8) / param)
@@ -164,6 +171,27 @@ def tol_value(measure, param, x, value=None):
         u = xd.log().abs() if param == 1 else xd.pow(1 - param)
         return 2 * eps * (N + 4) * (u.amax(0) + 1)
     raise KeyError(measure)
+
+
+def tail_magnitude(xd, p):
+    """max |x_i| over the ceil(pN) worst outcomes of every column of xd (N, M) (float64);
+    at a borderline level the larger accepted tail is used."""
+    from mc.models.risk_ref import tail_counts
+    k = max(tail_counts(p, xd.size(0))[0])
+    return xd.sort(0).values[:k].abs().amax(0)
+
+
+def input_rounding(measure, param, x):
+    """Bound on the effect of the rounding of a *computed* input x (each entry carries a relative
+    error eps) expressed as a sup-norm perturbation delta to feed lipschitz_slack.  In general
+    eps * max|x|.  Expected shortfall is -(1/k) min over k-subsets of the subset sums, so entry
+    errors only enter through the entries of an optimal subset; rounding is monotone, hence the
+    optimal subset of the rounded input is a tail of the exact one: eps * max|x_i| over the tail."""
+    eps = eps_of(x)
+    xd = x.to(torch.float64)
+    if measure == "es":
+        return eps * tail_magnitude(xd, param)
+    return eps * xd.abs().amax(0)
 
 
 def lipschitz_slack(measure, param, x, delta):
